@@ -1,7 +1,7 @@
 (* C05 -- no recomputation at the level of worlds: one step of a history. *)
 From Coq Require Import ZArith List Bool Lia.
 Require Import PV.Model.Cache PV.Model.CacheSpec PV.Proofs.CacheStream PV.Proofs.CacheWorld
-  PV.Proofs.CacheRecompute2 PV.Proofs.CacheTimed PV.Proofs.CacheFinding.
+  PV.Proofs.CacheRecompute2 PV.Proofs.CacheTimed.
 Import ListNotations.
 Open Scope Z_scope.
 
@@ -48,21 +48,75 @@ Proof.
   intros. eapply no_recompute_step; eauto. unfold stable. rewrite H4. exact I.
 Qed.
 
-(* timed manager, reachable state, no stale stamp: cached and younger than the timeout is enough *)
-Corollary no_recompute_step_timed_partial : forall w tos h k P cx m to pre rid post jd ak i d t,
+Lemma built_pipes_nodup : forall w, built w -> pipes_nodup A w.
+Proof.
+  intros w Hb. unfold pipes_nodup. apply Forall_forall. intros P HP. eapply built_pipe_nodup; eauto.
+Qed.
+
+(* ---- TimedCacheManager, every reachable state of every history with a monotone clock ---- *)
+Theorem timed_invariant_reachable : forall w tos h mi m to,
+  built w -> clock_monotone h ->
+  let st := final_state w (init_state A tos) h in
+  nth_error (s_mgrs st) mi = Some m -> m_timeout m = Some to -> timed_inv (s_now st) m.
+Proof.
+  intros w tos h mi m to Hb Hm st Em Hto.
+  pose proof (history_inv A w h (init_state A tos) (built_pipes_nodup w Hb) (init_inv A tos) Hm) as Hi.
+  fold st in Hi. pose proof (Forall_nth _ _ _ _ Hi Em) as Hmi. unfold mgr_inv in Hmi. rewrite Hto in Hmi. exact Hmi.
+Qed.
+
+(* whatever happened before (adds, joins from pool workers, unpersists, earlier gcs), a gc() at the current
+   time leaves nothing that was added at or before now - timeout ... *)
+Theorem gc_complete : forall w tos h mi m to,
+  built w -> clock_monotone h ->
+  let st := final_state w (init_state A tos) h in
+  nth_error (s_mgrs st) mi = Some m -> m_timeout m = Some to ->
+  forall k d t, In (k, (d, t)) (m_entries (m_gc (s_now st) m)) -> t > s_now st - to.
+Proof.
+  intros w tos h mi m to Hb Hm st Em Hto k d t Hin.
+  eapply gc_complete_mgr; eauto. eapply (timed_invariant_reachable w tos h); eauto.
+Qed.
+
+(* ... and removes nothing younger *)
+Theorem gc_only_expired : forall w tos h mi m to,
+  built w -> clock_monotone h ->
+  let st := final_state w (init_state A tos) h in
+  nth_error (s_mgrs st) mi = Some m -> m_timeout m = Some to ->
+  forall k d t, In (k, (d, t)) (m_entries m) -> t > s_now st - to -> has_key k (m_gc (s_now st) m).
+Proof.
+  intros w tos h mi m to Hb Hm st Em Hto k d t Hin Ht.
+  eapply gc_only_expired_mgr; eauto. eapply (timed_invariant_reachable w tos h); eauto.
+Qed.
+
+(* cached and younger than the timeout => not recomputed *)
+Theorem no_recompute_step_timed : forall w tos h k P cx m to pre rid post jd ak i d t,
   built w -> clock_monotone h ->
   let st := final_state w (init_state A tos) h in
   nth_error (w_pipes w) k = Some P -> p_nodes P = pre ++ (rid, SPersist) :: post ->
   nth_error (w_ctxs w) (p_ctx P) = Some cx -> nth_error (s_mgrs st) (c_mgr cx) = Some m ->
   m_timeout m = Some to ->
-  NoDup (map fst (m_times m)) ->
   In ((rid, i), (d, t)) (m_entries m) -> t > s_now st - to ->
   user_calls_of (map fst pre) i (snd (fst (step w st (Act k (length pre + 1 + jd) ak)))) = [].
 Proof.
-  intros w tos h k P cx m to pre rid post jd ak i d t Hb Hm st EP EN Ecx Em Hto Hns Hin Ht.
+  intros w tos h k P cx m to pre rid post jd ak i d t Hb Hm st EP EN Ecx Em Hto Hin Ht.
   eapply no_recompute_step; eauto.
   - unfold has_key. apply (in_map fst) in Hin; auto.
-  - eapply fresh_entry_stable; eauto. eapply (timed_invariant_reachable A w tos h); eauto.
+  - eapply fresh_entry_stable; eauto. eapply (timed_invariant_reachable w tos h); eauto.
+Qed.
+
+(* both classes of manager in one statement *)
+Theorem no_recompute_step_any : forall w tos h k P cx m pre rid post jd ak i d t,
+  built w -> clock_monotone h ->
+  let st := final_state w (init_state A tos) h in
+  nth_error (w_pipes w) k = Some P -> p_nodes P = pre ++ (rid, SPersist) :: post ->
+  nth_error (w_ctxs w) (p_ctx P) = Some cx -> nth_error (s_mgrs st) (c_mgr cx) = Some m ->
+  In ((rid, i), (d, t)) (m_entries m) ->
+  (forall to, m_timeout m = Some to -> t > s_now st - to) ->
+  user_calls_of (map fst pre) i (snd (fst (step w st (Act k (length pre + 1 + jd) ak)))) = [].
+Proof.
+  intros w tos h k P cx m pre rid post jd ak i d t Hb Hm st EP EN Ecx Em Hin Ht.
+  destruct (m_timeout m) as [to|] eqn:Hto.
+  - eapply (no_recompute_step_timed w tos h); eauto.
+  - eapply no_recompute_step_plain; eauto. unfold has_key. apply (in_map fst) in Hin; auto.
 Qed.
 
 End Step.
